@@ -2,7 +2,7 @@
 From Coq Require Import List Bool.
 Import ListNotations.
 From Mos Require Import Str Xml Outcome Seq Spec Elements Classify Messages Merge Collection Proto.
-From Mos.proofs Require Import Atomic CollFacts Examples.
+From Mos.proofs Require Import XmlFacts Atomic CollFacts Examples.
 
 (* For every well-formed running order (every story has a storyID, every item an itemID),
    every class and every message whose messageID is an integer - whatever its IDs: unknown,
@@ -15,6 +15,19 @@ Theorem C05_failed_merge_is_identity :
   r_err (add o ro k m) <> None -> r_st (add o ro k m) = ro.
 Proof. exact failed_merge_is_identity. Qed.
 Print Assumptions C05_failed_merge_is_identity.
+
+(* Since find_child passes over children without an ID tag (repair F28), "well formed" is no
+   restriction: it holds of every document that has a roCreate element at all.  So the
+   statement above is about all running orders, including ones whose stories or items lack
+   their ID tags. *)
+Theorem C05_any_running_order :
+  forall (o : oracles) (ro : xml) (k : mclass) (m : xml),
+  rc_of ro <> None -> msg_ok m = true ->
+  r_err (add o ro k m) <> None -> r_st (add o ro k m) = ro.
+Proof.
+  intros o ro k m Hrc. apply failed_merge_is_identity. now apply wf_ro_iff.
+Qed.
+Print Assumptions C05_any_running_order.
 
 (* In a non-strict collection merge over any sequence of schema-shaped messages, the final
    running order is the result of applying exactly the messages that did not fail: every
